@@ -492,6 +492,16 @@ class Inputs:
     def parse_value(cls, itype: str, value: str | None) -> tuple[float, ...] | None:
         """Parse the input value."""
 
+        try:
+            return cls._parse_value(itype, value)
+        except ValueError:
+            # More digits than the interpreter's integer string conversion limit: not a usable value
+            return None
+
+    @classmethod
+    def _parse_value(cls, itype: str, value: str | None) -> tuple[float, ...] | None:
+        """Parse the input value."""
+
         parsed = None  # type: tuple[float, ...] | None
         if value is None:
             return value
